@@ -212,6 +212,6 @@ class TornadoEventLoop(EventLoop):
 
     def run(self) -> None:
         self._loop.start()
-        if self._exc:
+        if self._exc is not None:
             exc, self._exc = self._exc, None
             raise exc.with_traceback(exc.__traceback__)
